@@ -16,7 +16,13 @@ pub fn run(case: &Value) -> Value {
     let root = sandbox(&case["id"]);
     build_tree(&root, &case["init"]);
     let mut pre = snapshot(&root);
-    let layers = path_of(&root, &case["layers"]);
+    let mut layers = path_of(&root, &case["layers"]);
+    if case["layers_via"] == "dotdot" {
+        // the same directory under a spelling that is not canonical: <layers>/../<layers>
+        let last = layers.file_name().unwrap().to_os_string();
+        layers.push("..");
+        layers.push(last);
+    }
     let name: LayerName = string_of(&case["name"]).parse().expect("layer name");
     let res = match case["op"].as_str().unwrap() {
         "delete_layer" => match verif_hooks::delete_layer(&layers, &name) {
